@@ -1,6 +1,7 @@
 package main
 
 import (
+	"os"
 	"fmt"
 	"go/types"
 	"math"
@@ -227,8 +228,11 @@ func (c *Ctx) lockMisuse(msg string) {
 
 func (c *Ctx) where() string {
 	var sb strings.Builder
-	n := 0
-	for fr := c.cur; fr != nil && n < 6; fr = fr.caller {
+	n, depth := 0, 6
+	if os.Getenv("GOSMT_PANICWHERE") != "" {
+		depth = 24
+	}
+	for fr := c.cur; fr != nil && n < depth; fr = fr.caller {
 		sb.WriteString(" <- " + fr.fn.String())
 		n++
 	}
@@ -321,6 +325,26 @@ func init() {
 	})
 	reg("(*sync.WaitGroup).Add (*sync.WaitGroup).Done (*sync.WaitGroup).Wait", func(c *Ctx, fn *ssa.Function, a []Value) Value {
 		return nil
+	})
+	// uuid.New / NewRandom: distinct, deterministic identifiers (randomness is environment; nothing here depends
+	// on the bits of a random UUID beyond distinctness)
+	newUUID := func(c *Ctx) *ArrayV {
+		n, _ := c.extra["uuidN"].(int)
+		c.extra["uuidN"] = n + 1
+		a := &ArrayV{e: make([]Value, 16)}
+		for i := range a.e {
+			a.e[i] = c.tb.Const(0, 8)
+		}
+		a.e[0] = c.tb.Const(0xee, 8)
+		a.e[6] = c.tb.Const(0x40, 8) // version 4
+		a.e[8] = c.tb.Const(0x80, 8) // variant
+		a.e[14] = c.tb.Const(uint64((n+1)>>8)&0xff, 8)
+		a.e[15] = c.tb.Const(uint64(n+1)&0xff, 8)
+		return a
+	}
+	reg("github.com/google/uuid.New", func(c *Ctx, fn *ssa.Function, a []Value) Value { return newUUID(c) })
+	reg("github.com/google/uuid.NewRandom", func(c *Ctx, fn *ssa.Function, a []Value) Value {
+		return TupleV{newUUID(c), IfaceV{}}
 	})
 	// sync.Pool: a LIFO free list per pool (single goroutine); Get on an empty pool calls New
 	reg("(*sync.Pool).Get", func(c *Ctx, fn *ssa.Function, a []Value) Value {
